@@ -10,7 +10,8 @@ Record case := mkCase {
   c_base : out;                       (* output of the original source *)
   c_rew : out;                        (* output of the rewritten source *)
   c_pairs : list (string * string);   (* spellings exchanged by the -/_ rewrite *)
-  c_frag : option (list stmt) }.      (* the top-level fragment moved into an @import-ed partial *)
+  c_frag : option (list stmt);        (* the top-level fragment moved into an @import-ed partial *)
+  c_tags : list string }.             (* places where the whitespace rewrite put a `//` comment that matter for a class *)
 
 Definition same_output (a b : out) : bool :=
   match a, b with
@@ -61,10 +62,14 @@ Fixpoint frag_risky (l : list stmt) : bool :=
 Definition known_K1 (c : case) : bool :=
   match c_frag c with Some f => frag_risky f | None => false end.
 
+(* K2: the whitespace/comment rewrite put a silent comment directly before or after a comparison
+   operator (== != < > <= >=): rsass then does not see the comparison *)
+Definition known_K2 (c : case) : bool := existsb (String.eqb "comment-at-comparison") (c_tags c).
+
 Definition b2z (b : bool) : Z := if b then 1%Z else 0%Z.
 
 (* [tie of the -/_ rewrite to the Name model (2 = not applicable); outputs equal; known class] *)
 Definition run (c : case) : list Z :=
   [ match c_pairs c with [] => 2%Z | l => b2z (pairs_ok l) end;
     b2z (same_output (c_base c) (c_rew c));
-    (if known_K1 c then 1 else 0)%Z ].
+    (if known_K1 c then 1 else if known_K2 c then 2 else 0)%Z ].
